@@ -73,6 +73,10 @@ func Close(fd int) error {
 	e, ok := vshim.Check("close", fd)
 	vshim.Closed(fd)
 	err := unix.Close(fd)
+	if err == unix.EBADF && fd >= 0 {
+		// the framework closed a number that is not open: it has closed it before (or never owned it)
+		vshim.ClosedNotOpen(fd)
+	}
 	if ok {
 		return e
 	}
